@@ -2,9 +2,10 @@
    Model: Acme.C10.{Export,Import,BusModel}; `export_import b = import (text_roundtrip (export b))`.
    Partial: the whole-bus theorem `export_import_ast_plain_partial` is an AST-level statement (import of the
    exported AST after the MODELLED write/parse effect; names need not be identifiers) proved for PLAIN buses (standard signals,
-   no descriptions / attributes / timing): nodes in order, messages by CAN-ID with name, size, byte
-   order, sender, receivers, signals with name, start bit in both byte orders, size, signedness, factor,
-   offset, minimum, maximum, unit, names with blanks.  The full statement is
+   descriptions of the bus, nodes, messages and signals; no attributes / timing / enums / multiplexers):
+   nodes in order with description, messages by CAN-ID with name, size, byte order, sender, receivers,
+   description, signals with name, start bit in both byte orders, size, signedness, factor, offset,
+   minimum, maximum, unit, description, names with blanks.  The full statement is
    Acme.C11.RoundTrip.export_import_full_statement (well_formed, names_ok spelled out there).
    The other ingredients are proved in isolation: the four attribute types (+hex) and their defaults
    through the write/parse effect, SG_MUL_VAL_ ranges, the start-bit conversion, the sanitiser. *)
@@ -19,7 +20,8 @@ Theorem start_bit_inverse :
 Proof. exact Proofs.start_bit_inverse. Qed.
 Print Assumptions start_bit_inverse.
 
-(* AST level (export, modelled write/parse effect, import), PLAIN buses only: the projection is reproduced *)
+(* AST level (export, modelled write/parse effect, import), PLAIN buses only (standard signals and
+   descriptions): the projection is reproduced *)
 Theorem export_import_ast_plain_partial : forall b, plain_bus b ->
   exists b', export_import b = Ok b' /\ proj_bus b' = proj_bus b.
 Proof. exact RoundTrip.export_import_plain_thm. Qed.
